@@ -20,9 +20,23 @@ every depth-1 scenario is additionally replayed ("lifted") at inner positions of
 Deliberately *not* asserted (statement silent / ambiguous; see the report):
   * whether settings given only through environment variables count as "settings were given" when nothing names a
     subcommand: both readings are accepted;
+  * the order between several config / environment / default-config sources that name different subcommands or give the
+    same option: the model uses the documented override order (DOCUMENTATION.rst, "Override order"), but a result that is
+    still compatible with the statement read *without* any such order (function `admissible`) is only listed in the notes
+    under the class prefix 'order-' and not asserted; `--assert-order` turns these into violations;
   * a leaf or a name given by two default config files of different levels (scenario filtered out);
+  * a failing parse when some source names an undeclared subcommand (any outcome but a success that stores it);
   * empty sections ({}), aliases, the type of the exception on failure (any exception counts as "parsing fails";
     non-ArgumentError failures are counted in the notes).
+
+Violation key:  c17:<class>:<mechanism>:<tree>:<required modes>:<channels>[:d0][:oc]:<minimal scenario>:<detail>
+  class      extra-section | wrong-choice | wrong-value | incomplete | accepted | rejected  (+ 'order-' prefix, see above)
+  mechanism  coarse shape of the *minimal* scenario (see `mechanism_of`): D default config file, K config content,
+             E environment, A command line; s = sets an option, n = names a subcommand, ! = off the chain the model selects
+  d0 = defaults=False, oc = option before --cfg on the command line; '*' = fails with required and with optional subcommands.
+Every failing evaluation is shrunk to a minimal scenario (confirmed on freshly built parsers); at most 3 (thorough 2)
+minimal witnesses per (class, mechanism) get their own key, further ones are attributed to the first witness of the group
+(all of them are written by `--dump-keys <file>`).
 """
 import itertools
 import json
